@@ -16,6 +16,7 @@
 -/
 import DDProofs.ReachTotal
 import DDProofs.GcSched
+import DDProofs.SatPick
 open Std
 
 namespace DD
@@ -78,8 +79,31 @@ def ledger : UOp → Mgr → (Nat → Nat) → (Nat → Nat)
 def OpGuard (m : Mgr) (ext : Nat → Nat) : UOp → Prop
   | .findOrAdd i v w => FoaGuard m i.toNat v w
   | .decref u => m.tbl.Mem u → 0 < ext u.natAbs
-  | .declare name level => ∀ l : Int, level = some l → m.tbl.vars[name]? = none → l ≤ (m.nvars : Int)
+  | .declare name level =>
+    match level with
+    | none => True
+    | some l => m.tbl.vars[name]? = none → l ≤ (m.nvars : Int)
   | _ => True
+
+theorem OpGuard.declare {m : Mgr} {ext : Nat → Nat} {name : String} {level : Option Int}
+    (hg : OpGuard m ext (.declare name level)) :
+    ∀ l : Int, level = some l → m.tbl.vars[name]? = none → l ≤ (m.nvars : Int) := by
+  intro l hl
+  subst hl
+  exact hg
+
+instance (m : Mgr) (i : Nat) (v w : Int) : Decidable (FoaGuard m i v w) := by
+  unfold FoaGuard; infer_instance
+
+instance (m : Mgr) (ext : Nat → Nat) (op : UOp) : Decidable (OpGuard m ext op) := by
+  cases op with
+  | declare name level =>
+    cases level with
+    | none => exact isTrue trivial
+    | some l => simp only [OpGuard]; infer_instance
+  | findOrAdd i v w => simp only [OpGuard]; infer_instance
+  | decref u => simp only [OpGuard]; infer_instance
+  | _ => exact isTrue trivial
 
 /-! ### the invariant of reachable states -/
 
@@ -149,7 +173,7 @@ level or no level; every refused call), or a NEW variable is appended at the bot
 theorem addVar_cases (m : Mgr) (hO : OrderOK m.tbl) (name : String) (level : Option Int)
     (hg : ∀ l : Int, level = some l → m.tbl.vars[name]? = none → l ≤ (m.nvars : Int)) :
     (addVar name level m).2 = m ∨
-    (m.tbl.vars[name]? = none ∧ (addVar name level m).2 = addVarState m name) := by
+    (m.tbl.vars[name]? = none ∧ addVar name level m = (.ok m.nvars, addVarState m name)) := by
   cases hex : m.tbl.vars[name]? with
   | some vl =>
     left
@@ -163,8 +187,7 @@ theorem addVar_cases (m : Mgr) (hO : OrderOK m.tbl) (name : String) (level : Opt
     cases level with
     | none =>
       right
-      refine ⟨rfl, ?_⟩
-      rw [addVar_new m name hex hO.l2v_none]
+      exact ⟨rfl, addVar_new m name hex hO.l2v_none⟩
     | some l =>
       by_cases hneg : l < 0
       · left
@@ -196,6 +219,7 @@ theorem addVar_good (m : Mgr) (ext : Nat → Nat) (h : GoodState m ext) (name : 
   rcases addVar_cases m h.order name level hg with he | ⟨hnew, he⟩
   · rw [he]; exact ⟨h, fun u hu => ⟨hu, fun _ => rfl⟩⟩
   · rw [he]
+    show GoodState (addVarState m name) ext ∧ _
     obtain ⟨hI, hO, -, -, -, hden, -, -⟩ := addVar_new_spec m h.inv h.order name hnew _ rfl
     exact ⟨⟨hI, hO, h.exact.congr_nodes (fun _ => rfl) rfl, h.off, h.ctx⟩, hden⟩
 
@@ -294,7 +318,7 @@ histories" statement). -/
 theorem step_inv (m : Mgr) (ext : Nat → Nat) (op : UOp) (h : GoodState m ext) (hg : OpGuard m ext op) :
     GoodState (runOp op m).2 (ledger op m ext) := by
   rcases runOp_kept m ext h op hg with ⟨name, level, rfl⟩ | rfl | ⟨hk, hr⟩
-  · exact (addVar_good m ext h name level hg).1
+  · exact (addVar_good m ext h name level hg.declare).1
   · obtain ⟨m', he, -, hgood⟩ := collectGarbage_good m ext h
     show GoodState (collectGarbage none m).2 ext
     rw [he]; exact hgood
@@ -306,7 +330,7 @@ theorem step_mem (m : Mgr) (ext : Nat → Nat) (op : UOp) (h : GoodState m ext) 
     (hop : op ≠ .collectGarbage) (u : Int) (hu : m.tbl.Mem u) :
     (runOp op m).2.tbl.Mem u ∧ ∀ a, den (runOp op m).2.tbl u a = den m.tbl u a := by
   rcases runOp_kept m ext h op hg with ⟨name, level, rfl⟩ | rfl | ⟨hk, -⟩
-  · exact (addVar_good m ext h name level hg).2 u hu
+  · exact (addVar_good m ext h name level hg.declare).2 u hu
   · exact absurd rfl hop
   · exact hk.den h.inv u hu
 
@@ -326,6 +350,43 @@ theorem step_held (m : Mgr) (ext : Nat → Nat) (op : UOp) (h : GoodState m ext)
       reach_survives hp.sub hp.inv.toInvS hp.refExact h.inv.toInvS (GcReach.root hu)
     exact ⟨hmem, fun a => hp.den_eq u hmem a⟩
   · exact step_mem m ext op h hg hop u hm
+
+/-- a REJECTED call (any operation, any argument) is a `Kept` step — it changed nothing, or only
+added nodes — and does not touch the user's ledger -/
+theorem rejected_kept (m : Mgr) (ext : Nat → Nat) (op : UOp) (h : GoodState m ext) (hg : OpGuard m ext op)
+    (e : Err) (hrej : (runOp op m).1 = .error e) :
+    Kept m (runOp op m).2 ∧ ledger op m ext = ext := by
+  rcases runOp_kept m ext h op hg with ⟨name, level, rfl⟩ | rfl | ⟨hk, -⟩
+  · rcases addVar_cases m h.order name level hg.declare with he | ⟨-, he⟩
+    · refine ⟨?_, rfl⟩
+      show Kept m (addVar name level m).2
+      rw [he]; exact Kept.refl h.inv
+    · exfalso
+      simp only [runOp, mapRes, he] at hrej
+      cases hrej
+  · exfalso
+    obtain ⟨m', he, -, -⟩ := collectGarbage_good m ext h
+    simp only [runOp, mapRes, he] at hrej
+    cases hrej
+  · refine ⟨hk, ?_⟩
+    cases op with
+    | incref u =>
+      by_cases hu : m.tbl.Mem u
+      · exfalso
+        obtain ⟨c, -, he, -⟩ := incref_spec m ext u h.exact hu
+        simp only [runOp, mapRes, he] at hrej
+        cases hrej
+      · have hm : m.mem u = false := (Tbl.mem_false_iff _ _).mpr hu
+        simp [ledger, hm]
+    | decref u =>
+      by_cases hu : m.tbl.Mem u
+      · exfalso
+        obtain ⟨c, -, he, -⟩ := decref_spec m ext u h.exact (hg hu)
+        simp only [runOp, mapRes, he] at hrej
+        cases hrej
+      · have hm : m.mem u = false := (Tbl.mem_false_iff _ _).mpr hu
+        simp [ledger, hm]
+    | _ => rfl
 
 /-! ### histories -/
 
@@ -347,6 +408,17 @@ def run : List UOp → St → St
 def OpsGuarded : List UOp → St → Prop
   | [], _ => True
   | op :: ops, s => OpGuard s.m s.ext op ∧ OpsGuarded ops (step op s)
+
+/-- the answers of the calls of a history, in order -/
+def results : List UOp → St → List (Except Err Res)
+  | [], _ => []
+  | op :: ops, s => (runOp op s.m).1 :: results ops (step op s)
+
+instance decOpsGuarded : (ops : List UOp) → (s : St) → Decidable (OpsGuarded ops s)
+  | [], _ => isTrue trivial
+  | op :: ops, s => by
+    unfold OpsGuarded
+    exact @instDecidableAnd _ _ _ (decOpsGuarded ops (step op s))
 
 theorem run_append (a b : List UOp) (s : St) : run (a ++ b) s = run b (run a s) := by
   induction a generalizing s with
@@ -386,5 +458,26 @@ theorem run_held (ops : List UOp) (s : St) (h : GoodState s.m s.ext) (hg : OpsGu
     obtain ⟨hm2, hd2⟩ := ih (step op s) (step_inv s.m s.ext op h hg.1) hg.2
       (fun pre post he => hheld (op :: pre) post (by rw [he]; rfl))
     exact ⟨hm2, fun a => (hd2 a).trans (hd1 a)⟩
+
+/-! ### functions by variable NAME -/
+
+/-- two references that agree as functions of the variable NAMES agree as functions of the levels
+(every level below `nvars` has a name of its own) -/
+theorem den_of_denN {t : Tbl} (hw : WF t) (hO : OrderOK t) (u v : Int) (hu : t.Mem u) (hv : t.Mem v)
+    (h : ∀ σ, denN t u σ = denN t v σ) : ∀ a, den t u a = den t v a := by
+  intro a
+  let σ : AsgN := fun name => match t.vars[name]? with
+    | some i => a i
+    | none => false
+  have hl : ∀ i, i < t.nvars → t.lift σ i = a i := by
+    intro i hi
+    obtain ⟨x, hx⟩ := hO.total i hi
+    have hxx := (hO.inv x i).mpr hx
+    simp [Tbl.lift, Tbl.nameOf, hx, σ, hxx]
+  have := h σ
+  unfold denN at this
+  rw [den_agree_ge t hw u hu _ a (fun i _ hi => hl i hi),
+    den_agree_ge t hw v hv _ a (fun i _ hi => hl i hi)] at this
+  exact this
 
 end DD
